@@ -26,6 +26,15 @@ CLAIMED = {
              "out by a transaction carry no obligation for later changes inside the same transaction.",
         technique="TLA+ spec PartTree.tla (channel obligations); TLC model checking + script replay + TLC trace validation",
         design_ref="4.1, 7 (C12), 9"),
+    "C13": dict(
+        engine="lpm",
+        text="LPM.tla models the trie as a persistent ordered map from bit prefixes with longest-covering-prefix lookup, "
+             "covered-by Prefix, LowerBound and ordered iteration (order lemma checked by TLC); TLC model-checks it, prints "
+             "one script per transition, and validates logs of the real lpm.Trie/Txn/Iterator (TLC scripts + shaped "
+             "histories with diverging queries, reused transactions, retained tries and iterators) against LPMTrace.tla.",
+        note="As C11. Lookup is judged for full-length keys and stored prefixes only (the property's domain).",
+        technique="TLA+ spec LPM.tla; TLC model checking + script replay + TLC trace validation",
+        design_ref="4.3, 7 (C13)"),
 }
 
 ALL = [f"C{i:02d}" for i in range(1, 21)]
@@ -64,6 +73,9 @@ def main():
             {"name": "part", "path": "harness/drv_part.go + spec/PartTree.tla + spec/trace/PartTrace.tla",
              "serves_properties": ["C11", "C12"],
              "kind_free_text": "script interpreter for part.Tree + TLA+ trace specification checked by TLC"},
+            {"name": "lpm", "path": "harness/drv_lpm.go + spec/LPM.tla + spec/trace/LPMTrace.tla",
+             "serves_properties": ["C13"],
+             "kind_free_text": "script interpreter for lpm.Trie + TLA+ trace specification checked by TLC"},
         ],
         "checks": checks,
         "not_applicable": na,
